@@ -94,6 +94,42 @@ theorem C05_v1_sound_scalar (std : Std) (cfg : Option MetaCfg) (t : Ty) (ht : is
     (h : loadV1 std cfg t o = .ok y) : conformsScalarV1 t y = true :=
   sound_scalar_v1 std cfg t ht o y h
 
+/-- The v1 `Literal` test is on the *pair* (value, type): whatever `v1Literal` returns is the input itself, and ONE member is
+both `==` to it and of its type.  Value and type are not tested independently of each other: for a member list that mixes
+types (`Literal[True, 0]`, `Literal[1, 2, 0.5]`) an input that is `==` to one member and carries the type of another one
+(`False`, `1`; `1.0`) has no such member and is rejected - see the witnesses below. -/
+theorem C05_v1_literal_member_by_value_and_type (vs : List Lit) (o : JVal) (y : PyVal) (h : v1Literal vs o = .ok y) :
+    y = o.toPy ∧ ∃ l ∈ vs, jEqLit o l = true ∧ jSameType o l = true := by
+  unfold v1Literal at h
+  split at h
+  · simp [perr] at h
+  · split at h
+    · rename_i hany
+      simp only [pure, Except.pure, Except.ok.injEq] at h
+      refine ⟨h.symm, ?_⟩
+      obtain ⟨l, hl, hp⟩ := List.any_eq_true.mp hany
+      exact ⟨l, hl, by simpa using hp⟩
+    · simp [perr] at h
+
+/-- … conversely an input no member matches as a pair is rejected, whatever single members it is `==` to or shares the type of -/
+theorem C05_v1_literal_rejects (vs : List Lit) (o : JVal) (h : ∀ l ∈ vs, (jEqLit o l && jSameType o l) = false) :
+    v1Literal vs o = perr := by
+  unfold v1Literal
+  split
+  · rfl
+  · have : vs.any (fun l => jEqLit o l && jSameType o l) = false := by
+      rw [List.any_eq_false]
+      intro l hl
+      simp [h l hl]
+    simp [this]
+
+/-- witnesses on mixed member lists: `Literal[True, 0]` rejects `False` (== 0, the type of True) and `1` (== True, the type
+of 0) and returns its members `0` and `True` -/
+theorem C05_v1_literal_mixed_witness :
+    v1Literal [.bool true, .int 0] (.bool false) = perr ∧ v1Literal [.bool true, .int 0] (.int 1) = perr ∧
+    v1Literal [.bool true, .int 0] (.int 0) = .ok (.int 0) ∧ v1Literal [.bool true, .int 0] (.bool true) = .ok (.bool true) := by
+  refine ⟨?_, ?_, ?_, ?_⟩ <;> rfl
+
 /-- non-vacuity of `FragV1`: a v1 model with `bytes`, a fixed tuple nested in a fixed tuple, a `Literal`, and a Union of a
 simple type, a container, a tagged dataclass and `None` is in the fragment -/
 theorem C05_v1_sound_example :
